@@ -207,6 +207,20 @@ CHECKS = {
          "2). Outside the statement, reported in the evidence only: the runner is not re-signalled when the ledger advances by another writer. The state-sync half "
          "of the statement is covered at crash-point level by C02's jump worlds; a dedicated StateSync model/harness is registered here when built.",
          "TLA+ PC model + refinement checked by TLC; gated goroutine replay on the real queue; TLC trace validation"),
+ "C07": ("model_checking",
+         "TLC enumerates every admission cell (the valid transaction and every transaction invalid in exactly one respect: 11 standard witness kinds, contract "
+         "and custom witnesses, cosigners, all attribute rules incl. Oracle and Notary, size up to MaxTransactionSize +-1, validity-window edges, balance edges, fee "
+         "slack -1/0/+1, 23 encodings and 10 malformed containers), checks that the code-shaped order of checks (NewTransactionFromBytes / verifyAndPoolTx / "
+         "pool.Add / ApplyPolicyToTxSet; 4 named deviations) agrees with the abstract defect sets incl. two-defect cells, and that the packing model stays within "
+         "limits on all pools of <=4 transactions x 240 limit records. Every cell is realised as wire bytes, parsed with NewTransactionFromBytes and offered to "
+         "PoolTx and VerifyTx on chains with default and seeded Policy values; TLC (AdmissionTrace) judges Sound / FeeExact / Consistent. Proposals from real pools "
+         "(TLC pack cases, an encoding sweep, seeded mixes) go through ApplyPolicyToTxSet -> block -> EncodeBinary -> DecodeBinary -> AddBlock on an independent "
+         "replica; TLC judges Proposable and WithinLimits byte-exactly.",
+         "DESIGN.md section 4 C07",
+         "Trusted: the chainkit network, the neotest executor (preparation only), the harness's re-encoder. Chain states are prepared chains, not arbitrary histories. "
+         "The fee threshold is judged for the canonical encoding; for non-minimal encodings only soundness against the canonical size and proposability are judged. "
+         "Contract-based witnesses are judged only for PoolTx/VerifyTx consistency. The replica is a second Blockchain fed wire bytes (consensus exchange is C19).",
+         "spec-as-oracle enumeration by TLC; TLC trace validation; wire-round-trip replication on an independent replica"),
 }
 
 NOT_YET = {}   # id -> reason (properties not (yet) claimed)
